@@ -124,6 +124,27 @@ def main():
                         bad("in_units:RoundTrip", dict(src=[sk, sf, sp, suf], tgt=[tk, tf, tp], par=par))
                 except BaseException as ex:  # noqa
                     bad("in_units:exception", dict(src=[tk, tf, tp, suf], tgt=[sk, sf, sp], exc=repr(ex)[:100]))
+                # single values derived from a series keep their own form through a conversion: a total stays a total (sum, minimum,
+                # maximum over the months), one month stays "per month"
+                if series and ncase[0] % 3 == 0:
+                    k0, f0, p0 = [np.asarray(x, dtype=float) for x in (src.kcals, src.fat, src.protein)]
+                    for dn, mk_d, dsuf, nums in (("sum", lambda: src.get_nutrients_sum(), "", (k0.sum(), f0.sum(), p0.sum())),
+                                                 ("month", lambda: src.get_month(1), " per month", (k0[1], f0[1], p0[1])),
+                                                 ("min", lambda: src.get_min_all_months(), "", (k0.min(), f0.min(), p0.min())),
+                                                 ("max", lambda: src.get_max_all_months(), "", (k0.max(), f0.max(), p0.max()))):
+                        try:
+                            dr = mk_d().in_units(tk, tf, tp)
+                        except BaseException as ex:  # noqa
+                            bad("in_units:exception:after-%s" % dn, dict(src=[sk, sf, sp], tgt=[tk, tf, tp], exc=repr(ex)[:100]))
+                            continue
+                        rep["in_units_checks"] += 1
+                        wl = [tk + dsuf, tf + dsuf, tp + dsuf]
+                        if [dr.kcals_units, dr.fat_units, dr.protein_units] != wl or list(dr.units) != wl or isinstance(dr.kcals, np.ndarray):
+                            bad("in_units:FormPreserved:after-%s" % dn, dict(src=[sk, sf, sp], tgt=[tk, tf, tp],
+                                                                              got=[dr.kcals_units, dr.fat_units, dr.protein_units], units=list(dr.units)))
+                        elif not (rel(dr.kcals, Fraction(float(nums[0])) * wk) and rel(dr.fat, Fraction(float(nums[1])) * wf)
+                                  and rel(dr.protein, Fraction(float(nums[2])) * wp)):
+                            bad("in_units:value:after-%s" % dn, dict(src=[sk, sf, sp], tgt=[tk, tf, tp]))
         # anchors on the code
         req = Food(float(ev(tab["req"]["kcals"], par)), float(ev(tab["req"]["fat"], par)), float(ev(tab["req"]["protein"], par)))
         for suf in ("", " per month"):
